@@ -296,6 +296,22 @@ class Interp(EngineBase):
         return self.getitem(base, idx, e)
 
     def getitem(self, base, idx, node):
+        if isinstance(base, Sym) and base.kind == 'ref' and base.cls == 'NpArr':
+            LEN, ATF = z3.Function('np_len', I, I), z3.Function('np_at', I, I, R)
+            if isinstance(idx, tuple) and idx[0] == 'npmask_gt':
+                # assumed (numpy): a[a > x] holds exactly the elements greater than x, in order
+                _, arr, x = idx
+                fid = z3.Function('np_filter_gt', I, R, I)(arr.t, x)
+                i = z3.Int(fresh_name('fi'))
+                self.st.assume(z3.And(fid > 0, LEN(fid) >= 0, LEN(fid) <= LEN(arr.t)))
+                self.st.assume(z3.ForAll([i], z3.Implies(z3.And(0 <= i, i < LEN(fid)), ATF(fid, i) > x)))
+                j = z3.Int(fresh_name('fj'))
+                self.st.assume(z3.Implies(z3.ForAll([j], z3.Implies(z3.And(0 <= j, j < LEN(arr.t)), ATF(arr.t, j) <= x)), LEN(fid) == 0))
+                return Sym('ref', fid, 'NpArr')
+            k = self.num(idx)
+            n = z3.ToReal(LEN(base.t))
+            self.check_or_raise(z3.And(k >= -n, k < n), 'IndexError', node, 'index out of bounds of a numpy array')
+            return Sym('num', ATF(base.t, z3.ToInt(k)))
         if isinstance(base, Record):
             if isinstance(idx, (str, int)) and not isinstance(idx, bool):
                 if idx not in base.items:
@@ -457,6 +473,12 @@ class Interp(EngineBase):
         return Sym('bool', self.cond(e))
 
     def ev_Compare(self, e):
+        if len(e.ops) == 1 and isinstance(e.ops[0], ast.Gt):
+            a = self.ev(e.left)
+            if isinstance(a, Sym) and a.kind == 'ref' and a.cls == 'NpArr':
+                return self.compare(e.ops[0], a, self.ev(e.comparators[0]), e)
+            b = self.ev(e.comparators[0])
+            return Sym('bool', self.compare(e.ops[0], a, b, e))
         return Sym('bool', self.cond(e))
 
     def ev_IfExp(self, e):
@@ -502,6 +524,8 @@ class Interp(EngineBase):
         return self.truth(v)
 
     def compare(self, op, a, b, node):
+        if isinstance(a, Sym) and a.kind == 'ref' and a.cls == 'NpArr' and isinstance(op, ast.Gt):
+            return ('npmask_gt', a, self.num(b))       # elementwise comparison: a boolean mask
         if isinstance(op, (ast.In, ast.NotIn)):
             r = self.contains(b, a, node)
             return z3.Not(r) if isinstance(op, ast.NotIn) else r
